@@ -20,11 +20,14 @@ pub struct Violation {
     /// root-cause signature (matched against known_findings.json)
     pub sig: String,
     pub detail: String,
+    /// content key of the line the violation is about, when it is about one line
+    #[serde(skip_serializing_if = "Option::is_none")]
+    pub key: Option<String>,
 }
 
 impl Violation {
     pub fn new(sig: impl Into<String>, detail: impl Into<String>) -> Self {
-        Violation { sig: sig.into(), detail: detail.into() }
+        Violation { sig: sig.into(), detail: detail.into(), key: None }
     }
 }
 
@@ -55,6 +58,11 @@ impl CaseReport {
     }
     pub fn violate(&mut self, sig: impl Into<String>, detail: impl Into<String>) {
         self.violations.push(Violation::new(sig, detail));
+    }
+    pub fn violate_key(&mut self, sig: impl Into<String>, detail: impl Into<String>, key: &str) {
+        let mut v = Violation::new(sig, detail);
+        v.key = Some(key.to_string());
+        self.violations.push(v);
     }
 }
 
